@@ -3,6 +3,8 @@ from __future__ import annotations
 
 import asyncio
 
+import time
+
 from hypothesis import strategies as st
 
 import baize.asgi as A
@@ -318,7 +320,120 @@ def oracle_wsgi_stream(case) -> Result:
     return r
 
 
+# ------------------------------------------------------------------------------------------
+# WSGI event streams sharing the relay pool: a stream whose relay job never got a pool thread
+
+
+def oracle_wsgi_pool(case) -> Result:
+    """`busy` event streams are open and their producers blocked (each holds one thread of the relay
+    pool shared by all event-stream responses).  One more stream is opened, consumed for `consume`
+    items (it can only see keep-alive pings while its relay job waits for a thread) and closed by the
+    server: the close must return although its producer never ran, the other streams must be
+    unaffected, and after everything is released and closed no relay future may be left running."""
+    import threading
+
+    r = Result()
+    busy, consume = case["busy"], case["consume"]
+    ctx = f"{case!r}"
+    release = threading.Event()
+    stats = {"entered": 0, "finalized": 0}
+    lock = threading.Lock()
+
+    def blocker(tag):
+        with lock:
+            stats["entered"] += 1
+        try:
+            yield {"data": f"{tag}-first"}
+            release.wait(30)
+            yield {"data": f"{tag}-last"}
+        finally:
+            with lock:
+                stats["finalized"] += 1
+
+    late = {"entered": 0, "finalized": 0}
+
+    def late_producer():
+        late["entered"] += 1
+        try:
+            yield {"data": "late"}
+        finally:
+            late["finalized"] += 1
+
+    env = gw.make_environ(gw.areq())
+    others = []
+    try:
+        for i in range(busy):
+            it = iter(W.SendEventResponse(blocker(f"s{i}"), ping_interval=0.02)(dict(env), lambda *a, **k: None))
+            if i < 10:
+                kind, val = _with_watchdog(lambda it=it: _next_data(it), 10.0)
+                if kind != "ok" or val != f"data: s{i}-first\n\n".encode():
+                    r.fail("C06:wsgi-pool:setup", f"{ctx}: stream {i} of the busy set gave {kind} {val!r}")
+            else:
+                # beyond the pool size the stream is itself waiting for a thread: it can only see pings
+                _with_watchdog(lambda it=it: next(it), 10.0)
+            others.append(it)
+        it = iter(W.SendEventResponse(late_producer(), ping_interval=0.02)(dict(env), lambda *a, **k: None))
+        got = []
+        for _ in range(consume):
+            kind, val = _with_watchdog(lambda: next(it), 10.0)
+            got.append((kind, val))
+            if kind == "hang":
+                r.fail("C06:wsgi-pool:next-hang", f"{ctx}: next() on the late stream did not return within 10 s")
+                break
+        kind, val = _with_watchdog(it.close, 5.0)
+        if kind == "hang":
+            kind2, _ = _with_watchdog(lambda: (release.set(), time.sleep(0))[1], 1.0)
+            r.fail("C06:wsgi-pool:close-hang", f"{ctx}: close() of a stream whose relay job was still waiting for a pool thread did not return within 5 s (items seen before: {got!r})")
+        elif kind == "exc":
+            r.fail(f"C06:wsgi-pool:close-raised:{type(val).__name__}", f"{ctx}: {val!r}")
+    finally:
+        release.set()
+        for o in others:
+            kind, val = _with_watchdog(o.close, 10.0)
+            if kind == "hang":
+                r.fail("C06:wsgi-pool:other-close-hang", f"{ctx}: closing a busy stream after its producer was released did not return within 10 s")
+    deadline = time.monotonic() + 10
+    while time.monotonic() < deadline and stats["finalized"] != stats["entered"]:
+        time.sleep(0.01)
+    if stats["finalized"] != stats["entered"]:
+        r.fail("C06:wsgi-pool:producer-cleanup-count", f"{ctx}: busy producers entered {stats['entered']}x, cleaned up {stats['finalized']}x")
+    if late["finalized"] != late["entered"]:
+        r.fail("C06:wsgi-pool:late-producer-cleanup", f"{ctx}: late producer entered {late['entered']}x, cleaned up {late['finalized']}x")
+    r.nontrivial = busy >= 10
+    r.label(f"busy={busy}", f"consume={consume}")
+    return r
+
+
+def _next_data(it):
+    while True:
+        item = next(it)
+        if not item.startswith(b": ping"):
+            return item
+
+
+def _with_watchdog(fn, timeout):
+    import threading
+
+    box = {}
+
+    def target():
+        try:
+            box["v"] = fn()
+        except BaseException as exc:  # noqa: BLE001
+            box["e"] = exc
+
+    t = threading.Thread(target=target, daemon=True)
+    t.start()
+    t.join(timeout)
+    if t.is_alive():
+        return "hang", None
+    if "e" in box:
+        return "exc", box["e"]
+    return "ok", box.get("v")
+
+
 SUBS = {
+    "wsgi_pool": oracle_wsgi_pool,
     "asgi": oracle_asgi,
     "asgi_grid": oracle_asgi,
     "wsgi_sse": oracle_wsgi_sse,
@@ -404,6 +519,8 @@ def run(rec, only=None):
     ping_scheds = list(wsched.enumerate_schedules(3 if quick else 4, True)) + [s for s in stalls if wsched.feasible(s, True)]
     core.drive_cases(rec, "wsgi_sse_ping", ({"schedule": s, "ping": True} for s in ping_scheds), oracle_wsgi_sse)
     rec.exhaustive["wsgi_sse_ping"] = True
+    core.drive_cases(rec, "wsgi_pool", ({"busy": b, "consume": c} for b in (0, 9, 10, 12) for c in (0, 1, 3)), oracle_wsgi_pool)
+    rec.exhaustive["wsgi_pool"] = True
     grid = list(asgi_grid())
     core.drive_cases(rec, "asgi_grid", grid, oracle_asgi)
     rec.exhaustive["asgi_grid"] = True
